@@ -205,3 +205,126 @@ theorem isNaN_packFin (f : Fmt) (h : WF f) (s : Bool) (q : Nat) (e : Int) (hq : 
       split_ifs <;> simp [V.isNaN]
 
 end FAVerif.SoftRound
+
+namespace FAVerif.SoftRound
+open FAVerif.FP
+
+lemma expMax_lt (f : Fmt) : f.expMax < 2 ^ f.ew := by
+  simp only [Fmt.expMax]; have : 0 < 2 ^ f.ew := by positivity
+  omega
+
+theorem decode_nanBits (f : Fmt) (h : WF f) : decode f f.nanBits = .nan := by
+  have hfb : 1 ≤ f.fracBits := by simp [Fmt.fracBits]; have := h.hp; omega
+  have hlt : 2 ^ (f.fracBits - 1) < 2 ^ f.fracBits := Nat.pow_lt_pow_right (by norm_num) (by omega)
+  have := fields_compose f h false f.expMax (2 ^ (f.fracBits - 1)) (expMax_lt f) hlt
+  simp only [Bool.false_eq_true, if_false, Nat.zero_add] at this
+  unfold decode Fmt.nanBits Fmt.infBits
+  rw [this]
+  have : 2 ^ (f.fracBits - 1) ≠ 0 := by positivity
+  simp [this]
+
+theorem decode_infBitsS (f : Fmt) (h : WF f) (s : Bool) : decode f (f.infBitsS s) = .inf s := by
+  have := fields_compose f h s f.expMax 0 (expMax_lt f) (by positivity)
+  simp only [Nat.add_zero] at this
+  unfold decode Fmt.infBitsS Fmt.infBits
+  rw [this]; simp
+
+theorem isNaN_nanBits (f : Fmt) (h : WF f) : isNaNBits f f.nanBits = true := by
+  simp [isNaNBits, decode_nanBits f h, V.isNaN]
+
+theorem isNaN_infBitsS (f : Fmt) (h : WF f) (s : Bool) : isNaNBits f (f.infBitsS s) = false := by
+  simp [isNaNBits, decode_infBitsS f h, V.isNaN]
+
+theorem neg_infBitsS (f : Fmt) (h : WF f) (s : Bool) : FP.neg f (f.infBitsS s) = f.infBitsS (!s) := by
+  have hr : f.infBits < f.signBit := by
+    rw [signBit_eq f h]; unfold Fmt.infBits
+    exact Nat.mul_lt_mul_of_pos_right (expMax_lt f) (by positivity)
+  unfold Fmt.infBitsS
+  exact neg_compose f h s f.infBits hr
+
+theorem neg_zeroBits (f : Fmt) (h : WF f) (s : Bool) : FP.neg f (f.zeroBits s) = f.zeroBits (!s) := by
+  have hS : 0 < f.signBit := by rw [signBit_eq f h]; positivity
+  have := neg_compose f h s 0 hS
+  simpa [Fmt.zeroBits] using this
+
+theorem isNaN_zeroBits (f : Fmt) (h : WF f) (s : Bool) : isNaNBits f (f.zeroBits s) = false := by
+  simp [isNaNBits, decode_zeroBits f h, V.isNaN]
+
+/-- rounding is sign-symmetric (sticky-free case) and never produces NaN -/
+theorem roundFin_neg (f : Fmt) (h : WF f) (s : Bool) (m : Nat) (e : Int) :
+    FP.neg f (roundFin f s m e false) = roundFin f (!s) m e false ∧ isNaNBits f (roundFin f s m e false) = false := by
+  have hfb : f.fracBits + 1 = f.p := by simp [Fmt.fracBits]; have := h.hp; omega
+  have hpp : (2 : ℕ) ^ f.p = 2 * 2 ^ f.fracBits := by rw [← hfb, pow_succ]; ring
+  have hB : 0 < 2 ^ f.fracBits := by positivity
+  unfold roundFin
+  by_cases hm : m = 0
+  · simp only [hm, if_true]
+    exact ⟨neg_zeroBits f h s, isNaN_zeroBits f h s⟩
+  · simp only [hm, if_false]
+    obtain ⟨hc1, _, _⟩ := roundCore_canon f h m (Nat.pos_of_ne_zero hm) e
+    by_cases htop : (roundCore f m e false).1 = 2 ^ f.p
+    · simp only [htop, if_true]
+      exact ⟨neg_packFin f h s _ _ (by omega), isNaN_packFin f h s _ _ (by omega)⟩
+    · simp only [htop, if_false]
+      have hlt : (roundCore f m e false).1 < 2 ^ f.p := lt_of_le_of_ne hc1 htop
+      exact ⟨neg_packFin f h s _ _ hlt, isNaN_packFin f h s _ _ hlt⟩
+
+/-- **(−a)·b = −(a·b)**, with NaN staying the canonical NaN — all patterns -/
+theorem mul_neg_left (f : Fmt) (h : WF f) (a b : Nat) : FP.mul f (FP.neg f a) b = negN f (FP.mul f a b) := by
+  have hnn : negN f f.nanBits = f.nanBits := by simp [negN, isNaN_nanBits f h]
+  have hinf : ∀ s, negN f (f.infBitsS s) = f.infBitsS (!s) := fun s => by
+    simp [negN, isNaN_infBitsS f h, neg_infBitsS f h]
+  unfold FP.mul
+  rw [decode_neg_all f h a]
+  cases ha : decode f a <;> cases hb : decode f b <;> simp only []
+  all_goals first
+    | exact hnn.symm
+    | (rename_i s t; rw [hinf]; cases s <;> cases t <;> rfl)
+    | (rename_i s t n e
+       by_cases hn : n = 0
+       · simp only [hn, if_true]; exact hnn.symm
+       · simp only [hn, if_false]; rw [hinf]; cases s <;> cases t <;> rfl)
+    | (rename_i s m e t
+       by_cases hn : m = 0
+       · simp only [hn, if_true]; exact hnn.symm
+       · simp only [hn, if_false]; rw [hinf]; cases s <;> cases t <;> rfl)
+    | (rename_i s m e t n e'
+       obtain ⟨h1, h2⟩ := roundFin_neg f h (s != t) (m * n) (e + e')
+       simp only [negN, h2, Bool.false_eq_true, if_false]
+       rw [h1]
+       cases s <;> cases t <;> rfl)
+
+theorem mul_neg_right (f : Fmt) (h : WF f) (a b : Nat) : FP.mul f a (FP.neg f b) = negN f (FP.mul f a b) := by
+  rw [mul_comm' f a (FP.neg f b), mul_neg_left f h b a, mul_comm' f b a]
+
+theorem negN_negN (f : Fmt) (h : WF f) (a : Nat) : negN f (negN f a) = a := by
+  unfold negN
+  by_cases hn : isNaNBits f a = true
+  · simp [hn]
+  · simp only [hn, Bool.false_eq_true, if_false]
+    rw [isNaN_neg f h a]; simp [hn, neg_neg' f h a]
+
+theorem isNaN_negN (f : Fmt) (h : WF f) (a : Nat) : isNaNBits f (negN f a) = isNaNBits f a := by
+  unfold negN
+  by_cases hn : isNaNBits f a = true
+  · simp [hn]
+  · simp only [hn, Bool.false_eq_true, if_false]; rw [isNaN_neg f h a]; simpa using hn
+
+/-- c·(negN w) = negN (c·w) -/
+theorem mul_negN_right (f : Fmt) (h : WF f) (c w : Nat) : FP.mul f c (negN f w) = negN f (FP.mul f c w) := by
+  unfold negN
+  by_cases hn : isNaNBits f w = true
+  · simp only [hn, if_true]
+    -- w NaN ⇒ c·w = NaN
+    have : FP.mul f c w = f.nanBits := by
+      unfold FP.mul
+      unfold isNaNBits at hn
+      cases hw : decode f w <;> simp [hw, V.isNaN] at hn
+      cases decode f c <;> rfl
+    rw [this]; simp [isNaN_nanBits f h]
+  · simp only [hn, Bool.false_eq_true, if_false]
+    have := mul_neg_right f h c w
+    unfold negN at this
+    exact this
+
+end FAVerif.SoftRound
